@@ -109,6 +109,8 @@ Fixpoint enum_from (n : N) (l : list val) : list val :=
 Definition anti (neg pos : list val) : list val :=
   filter (fun p => negb (memb (vfst p) neg)) pos.
 
+Definition diff (neg pos : list val) : list val := filter (fun p => negb (memb p neg)) pos.
+
 Definition reduce_opt (f : val -> val -> val) (o : option val) (x : val) : option val :=
   match o with None => Some x | Some a => Some (f a x) end.
 Definition reduce_list (f : val -> val -> val) (l : list val) : option val :=
@@ -227,6 +229,10 @@ Definition mdelta_step (prev cur : list val) : list val * list val := (mdelta pr
 Definition anti_step (s : list val) (pn : list val * list val) : list val * list val :=
   let N := s ++ snd pn in (anti N (fst pn), N).
 
+(* difference::<'tick, neg lifetime> *)
+Definition diff_step (s : list val) (pn : list val * list val) : list val * list val :=
+  let N := s ++ snd pn in (diff N (fst pn), N).
+
 (* defer_tick_lazy: emits what it buffered in the previous tick *)
 Definition defer_step (buf xs : list val) : list val * list val := (buf, xs).
 
@@ -286,7 +292,9 @@ Inductive snode : Type :=
 | SCross (x y : snode)
 | SAntiJoin (x : snode) (neg : list val)           (* anti_join with a Bounded (source_iter) side *)
 | SGen (init : val) (f : val -> val -> val * gen) (x : snode)    (* Stream::generator: scan + flat_map *)
-| SJoinHalf (x y : snode).          (* Stream::join whose right side is Bounded: HydroNode::JoinHalf *)
+| SJoinHalf (x y : snode)           (* Stream::join whose right side is Bounded: HydroNode::JoinHalf *)
+| SDifference (x : snode) (neg : list val)     (* filter_not_in with a Bounded (source_iter) side *)
+| SPart (side : bool) (p : val -> bool) (x : snode).   (* one side of Stream::partition *)
 
 Inductive anode : Type :=
 | AFold (init : val) (acc : val -> val -> val) (x : snode)      (* Singleton *)
@@ -308,7 +316,8 @@ Fixpoint bounded_s (n : snode) : bool :=
 Fixpoint ord (n : snode) : bool :=
   match n with
   | SSrc _ | SIter _ => true
-  | SMap _ x | SFilter _ x | SFilterMap _ x | SInspect x | SUnique x | SAntiJoin x _ | SGen _ _ x => ord x
+  | SMap _ x | SFilter _ x | SFilterMap _ x | SInspect x | SUnique x | SAntiJoin x _ | SGen _ _ x
+  | SDifference x _ | SPart _ _ x => ord x
   | SFlatMap o _ x => o && ord x
   | SWeaken _ | SUnion _ _ | SJoin _ _ | SCross _ _ => false
   | SEnumerate _ => true
@@ -334,7 +343,7 @@ Fixpoint wf_s (n : snode) : Prop :=
   match n with
   | SSrc _ | SIter _ => True
   | SMap _ x | SFilter _ x | SFilterMap _ x | SInspect x | SWeaken x | SUnique x
-  | SAntiJoin x _ | SFlatMap _ _ x => wf_s x
+  | SAntiJoin x _ | SFlatMap _ _ x | SDifference x _ | SPart _ _ x => wf_s x
   | SEnumerate x | SGen _ _ x => ord x = true /\ wf_s x
   | SUnion x y | SJoin x y | SCross x y => wf_s x /\ wf_s y
   | SJoinHalf x y => bounded_s y = true /\ (wf_s x /\ wf_s y)
@@ -369,6 +378,8 @@ Fixpoint den_s (n : snode) (e : env) : list val :=
   | SAntiJoin x neg => anti neg (den_s x e)
   | SGen init f x => gen_list f init (den_s x e)
   | SJoinHalf x y => join (den_s x e) (den_s y e)
+  | SDifference x neg => diff neg (den_s x e)
+  | SPart side p x => filter (fun v => Bool.eqb (p v) side) (den_s x e)
   end.
 
 Fixpoint den_a (a : anode) (e : env) : list val :=
@@ -410,6 +421,9 @@ Fixpoint run_s (n : snode) (bs : list env) : list (list val) :=
      (left) side streams through within its tick; no multiset_delta *)
   | SJoinHalf x y =>
       op_run LStatic ([], []) (pair_step jmatch LTick LStatic) (combine (run_s x bs) (run_s y bs))
+  | SDifference x neg =>
+      op_run LStatic [] diff_step (combine (run_s x bs) (first_tick neg bs))
+  | SPart side p x => map (filter (fun v => Bool.eqb (p v) side)) (run_s x bs)
   end.
 
 Fixpoint run_a (a : anode) (bs : list env) : list (list val) :=
@@ -444,6 +458,8 @@ Fixpoint emit_s (n : snode) : list string :=
   | SAntiJoin x _ => "anti_join<'tick,'static>" :: "source_iter" :: emit_s x
   | SGen _ _ x => "scan<'static>" :: "flat_map" :: emit_s x
   | SJoinHalf x y => "join_multiset_half<'static,'tick>" :: emit_s x ++ emit_s y
+  | SDifference x _ => "difference<'tick,'static>" :: "source_iter" :: emit_s x
+  | SPart _ _ x => "partition" :: emit_s x
   end.
 Fixpoint emit_a (a : anode) : list string :=
   match a with
